@@ -1247,7 +1247,9 @@ impl FixtureDatabase {
 
         // Scan forward from last_sig_line looking for trailing ":"
         let lines: Vec<&str> = content.lines().collect();
+        // Never look at the first body line itself: it may end with ':' too (`if x:`)
         let scan_end = first_body_line
+            .map(|body_line| body_line.saturating_sub(1).max(last_sig_line))
             .unwrap_or(last_sig_line + 10)
             .min(last_sig_line + 10)
             .min(lines.len());
